@@ -23,7 +23,7 @@ Proof. exact pump_windows_hold. Qed.
    passed on once, unflagged, without touching the recovery state *)
 Theorem C07_flags : forall cfg s op,
   is_main op = false -> forall e, In e (o_emits (snd (rstep cfg s op))) -> snd e = true.
-Proof. intros cfg s op H. exact (proj1 (rstep_flags_waits cfg s op H)). Qed.
+Proof. exact rstep_flagged_all. Qed.
 
 Theorem C07_main_never_flagged : forall cfg s p o,
   rstep cfg s (MainRec p o) =
@@ -84,8 +84,8 @@ Proof. exact f6_witness. Qed.
    fresh records (the client delivers a, a+1, ... after Assign (p,a)), stale records below the client's position,
    stragglers of an earlier assignment AHEAD of the position (inside the window, not a multiple of updateRequestEvery), records
    and requests of other partitions, refreshes, ownership changes, revocations, truncation errors with lows <= LB,
-   ignored errors, foreign snapshots of other partitions and crashes with hand-off to an instance that read the
-   compacted topic: when the request is complete every retained (> LB) record of (from, to] has been emitted; while it
+   ignored errors, foreign snapshots of other partitions and crashes - between records or while the owner is blocked on
+   the emission of a record (RecCrash) - with hand-off to an instance that read the compacted topic: when the request is complete every retained (> LB) record of (from, to] has been emitted; while it
    is outstanding every retained record of (from, broadcast progress] has been emitted.  Excluded ([ok_op]): arbitrary
    records on p (in particular stragglers ON the broadcast grid or beyond to: on the current code they broadcast a
    progress point / close the request ahead of what was recovered and records ARE lost if a re-assignment follows), a second request / foreign snapshot for p, cancel-all, main-consumer assignments. *)
